@@ -178,4 +178,24 @@ def generate():
     out += '  s_anchored := %s; s_escaped := %s; s_gz_optional := %s; s_append := %s;\n' % (
         b(anchored), b(esc_frf and esc_fni), b(gz_opt), b(append))
     out += '  s_lists_hidden := %s; s_name_onepass := %s; s_date_ascii := %s |}.\n' % (b(hidden_frf and hidden_fni), b(onepass), b(ascii_fni and ascii_grn))
-    return {'SrcRotate.v': out}
+    # ---- the fluent front end SimplePipeline::sendToFile (round 8): when does it build the rotating sink?
+    sp = _flat(fn_body(strip_comments(rd('simplepipeline.cpp')), 'SimplePipeline::sendToFile'))
+    fm = need(re.search(r'if \(((?:(?!if \().)*?)\) \{ append\(RotatingFileSinkPtr::create\(([^;]*?)\)\); \} else \{ append\(FileSinkPtr::create\(([^;]*?)\)\); \}', sp),
+              'sendToFile: if (<rotation asked for>) append(RotatingFileSinkPtr::create(...)) else append(FileSinkPtr::create(...))')
+    KNOWN = {'maxFileSize > 0': 'size', 'options.testFlag(RotatingFileSink::RotationOnStartup)': 'startup',
+             'options.testFlag(RotatingFileSink::RotationDaily)': 'daily',
+             'options.testFlag(RotatingFileSink::Compression)': 'compression'}   # more rotating sinks than needed: harmless
+    asked = set()
+    for d in fm.group(1).split(' || '):
+        d = d.strip()
+        if d not in KNOWN:
+            raise AnchorError('ANCHOR NOT FOUND: sendToFile: unrecognised condition %r for building the rotating sink' % d)
+        asked.add(KNOWN[d])
+    args_ok = fm.group(2).strip() == 'fileName, maxFileSize, maxFileCount, options' and fm.group(3).strip() == 'fileName'
+    need(sp[:fm.start()].strip() == 'if (fileName.isEmpty()) return *this;', 'sendToFile: nothing but the empty-name guard before the choice')
+    need(sp[fm.end():].strip() == 'return *this;', 'sendToFile: nothing after the choice')
+    out2 = HDR % 'src/qtlogger/simplepipeline.cpp (SimplePipeline::sendToFile)'
+    out2 += 'Require Import QtlVerif.RotateDefs QtlVerif.RotateFrontDefs.\n'
+    out2 += 'Definition src_front : front := {| f_size := %s; f_startup := %s; f_daily := %s; f_args := %s |}.\n' % (
+        b('size' in asked), b('startup' in asked), b('daily' in asked), b(args_ok))
+    return {'SrcRotate.v': out, 'SrcRotateFront.v': out2}
